@@ -126,8 +126,16 @@ ENCODABLE = {"utf-8": "猫é한", "cp1252": "é€", "cp932": "猫ｱ", "cp949":
 EDITS = ["noop", "title_ascii", "title_enc", "del_key", "append_chart", "keyonly", "set_new"]
 
 
+UNENCODABLE = {"utf-8": "\ud800", "cp1252": "猫", "cp932": "한", "cp949": "\U0001f600", "ascii": "é"}
+
+
 def apply_edit(sf, op, enc):
     if op == "noop":
+        return
+    if op == "title_unencodable":
+        # a character the detected encoding lacks: saving may fail (C06 judges that), but if mutate
+        # completes, the output must still decode in the detected encoding to exactly this simfile
+        sf.title = "x" + UNENCODABLE.get(enc, "\ud800")
         return
     if op == "title_ascii":
         sf.title = "New Title"
